@@ -20,6 +20,10 @@ def gen_e2e(ctx):
                 yield eline(c, [co, get("p", 1), "noop@" + drop, co, get("p", 1), "disc:0"])
                 yield eline(c, [co, "noop@" + R(b"421 closing") + "," + drop, "isconn", "disc:0", co, noop])
                 yield eline(c, [login_cut + drop, "isconn", "disc:0", co, noop])     # dropped in the middle of login
+            # connect() while connected, to a host that cannot be resolved / that refuses: the old socket is gone, nothing is held
+            bad = H(b"y" * 80 + b".invalid")
+            yield eline(c, [co, "connect:%s:-" % bad, "isconn", "disc:0", "isconn", co, noop, "disc:1@" + R(b"221 bye")])
+            yield eline(c, [co, get("p", 1), "connect:%s:-" % bad, "disc:1", "isconn", "connect:%s:-" % bad, "isconn", co, noop])
             # a dropped (not reset) connection accepts one more write: the call that makes it fails reading the reply
             yield eline(c, [co, "noop@" + R(b"200 ok") + ",X", "disc:1", "disc:0", co, noop, "disc:1@" + R(b"221 bye")])
             yield eline(c, [co, "noop@" + R(b"200 ok") + ",X", "noop", "isconn", "disc:0", co, noop])
